@@ -51,6 +51,25 @@
 #include "time_zone_fixed.h"
 #include "time_zone_posix.h"
 
+#if defined(GOOGLE_CCTZ_VERIF)
+// Verification-only observation point (null by default): reports each use
+// (hit != 0) or store (hit == 0) of the BreakTime (dir 0) / MakeTime (dir 1)
+// transition-index hints.
+extern "C" {
+void (*cctz_verif_hint_hook)(const void* zone, int dir, std::size_t hint,
+                             int hit) = nullptr;
+}
+#define CCTZ_VERIF_HINT_HOOK(zone, dir, hint, hit) \
+  do {                                             \
+    if (cctz_verif_hint_hook != nullptr)           \
+      cctz_verif_hint_hook((zone), (dir), (hint), (hit)); \
+  } while (0)
+#else
+#define CCTZ_VERIF_HINT_HOOK(zone, dir, hint, hit) \
+  do {                                             \
+  } while (0)
+#endif
+
 namespace cctz {
 
 namespace {
@@ -921,6 +940,7 @@ time_zone::absolute_lookup TimeZoneInfo::BreakTime(
   if (0 < hint && hint < timecnt) {
     if (transitions_[hint - 1].unix_time <= unix_time) {
       if (unix_time < transitions_[hint].unix_time) {
+        CCTZ_VERIF_HINT_HOOK(this, 0, hint, 1);
         return LocalTime(unix_time, transitions_[hint - 1]);
       }
     }
@@ -932,6 +952,7 @@ time_zone::absolute_lookup TimeZoneInfo::BreakTime(
                                           Transition::ByUnixTime());
   local_time_hint_.store(static_cast<std::size_t>(tr - begin),
                          std::memory_order_relaxed);
+  CCTZ_VERIF_HINT_HOOK(this, 0, static_cast<std::size_t>(tr - begin), 0);
   return LocalTime(unix_time, *--tr);
 }
 
@@ -953,6 +974,7 @@ time_zone::civil_lookup TimeZoneInfo::MakeTime(const civil_second& cs) const {
       if (transitions_[hint - 1].civil_sec <= cs) {
         if (cs < transitions_[hint].civil_sec) {
           tr = begin + hint;
+          CCTZ_VERIF_HINT_HOOK(this, 1, hint, 1);
         }
       }
     }
@@ -961,6 +983,7 @@ time_zone::civil_lookup TimeZoneInfo::MakeTime(const civil_second& cs) const {
       tr = std::upper_bound(begin, end, target, Transition::ByCivilTime());
       time_local_hint_.store(static_cast<std::size_t>(tr - begin),
                              std::memory_order_relaxed);
+      CCTZ_VERIF_HINT_HOOK(this, 1, static_cast<std::size_t>(tr - begin), 0);
     }
   }
 
